@@ -292,7 +292,7 @@ func (i *InsertStatement) Format(opts FormatOptions) string {
 
 	sb.WriteString(f.kw("INSERT INTO"))
 	sb.WriteString(" ")
-	sb.WriteString(i.TableName)
+	sb.WriteString(safeQualifiedName(i.TableName))
 
 	if len(i.Columns) > 0 {
 		sb.WriteString(" (")
@@ -355,10 +355,10 @@ func (u *UpdateStatement) Format(opts FormatOptions) string {
 
 	sb.WriteString(f.kw("UPDATE"))
 	sb.WriteString(" ")
-	sb.WriteString(u.TableName)
+	sb.WriteString(safeQualifiedName(u.TableName))
 	if u.Alias != "" {
 		sb.WriteString(" ")
-		sb.WriteString(u.Alias)
+		sb.WriteString(safeIdentifier(u.Alias))
 	}
 
 	sb.WriteString(f.clauseSep())
@@ -417,10 +417,10 @@ func (d *DeleteStatement) Format(opts FormatOptions) string {
 
 	sb.WriteString(f.kw("DELETE FROM"))
 	sb.WriteString(" ")
-	sb.WriteString(d.TableName)
+	sb.WriteString(safeQualifiedName(d.TableName))
 	if d.Alias != "" {
 		sb.WriteString(" ")
-		sb.WriteString(d.Alias)
+		sb.WriteString(safeIdentifier(d.Alias))
 	}
 
 	if len(d.Using) > 0 {
